@@ -27,14 +27,22 @@ pub fn parse_pi(a: &[&str]) -> PublicInput {
         if v.len() != 340 { panic!("HX-BAD-INPUT dynamic params length") }
         Some(swiftness_air::dynamic::DynamicParams::from(v))
     };
-    PublicInput {
-        log_n_steps: felt(a[0]), range_check_min: felt(a[1]), range_check_max: felt(a[2]), layout: felt(a[3]),
-        dynamic_params,
-        segments: rows(a[5]).iter().map(|r| SegmentInfo { begin_addr: r[0], stop_ptr: r[1] }).collect(),
-        padding_addr: felt(a[6]), padding_value: felt(a[7]),
-        main_page: Page(rows(a[8]).iter().map(|r| AddrValue { address: r[0], value: r[1] }).collect()),
-        continuous_page_headers: rows(a[9]).iter().map(|r| ContinuousPageHeader { start_address: r[0], size: r[1], hash: r[2], prod: r[3] }).collect(),
-    }
+    // field-by-field assignment on a base value, not a struct literal: a field added to the struct (a cache, a memo) neither breaks the
+    // harness nor is reset by it
+    let mut p = swiftness_air::fixtures::public_input::get();
+    p.log_n_steps = felt(a[0]); p.range_check_min = felt(a[1]); p.range_check_max = felt(a[2]); p.layout = felt(a[3]);
+    p.dynamic_params = dynamic_params;
+    p.segments = rows(a[5]).iter().map(|r| SegmentInfo { begin_addr: r[0], stop_ptr: r[1] }).collect();
+    p.padding_addr = felt(a[6]); p.padding_value = felt(a[7]);
+    p.main_page = Page(rows(a[8]).iter().map(|r| AddrValue { address: r[0], value: r[1] }).collect());
+    p.continuous_page_headers = rows(a[9]).iter().map(|r| ContinuousPageHeader { start_address: r[0], size: r[1], hash: r[2], prod: r[3] }).collect();
+    p
+}
+/// overwrite every (public) field of `p` with `q`'s, keeping the OBJECT: whatever else the object carries (caches) stays
+pub fn assign_pi(p: &mut PublicInput, q: PublicInput) {
+    p.log_n_steps = q.log_n_steps; p.range_check_min = q.range_check_min; p.range_check_max = q.range_check_max; p.layout = q.layout;
+    p.dynamic_params = q.dynamic_params; p.segments = q.segments; p.padding_addr = q.padding_addr; p.padding_value = q.padding_value;
+    p.main_page = q.main_page; p.continuous_page_headers = q.continuous_page_headers;
 }
 pub fn fmt_pi(p: &PublicInput) -> String {
     let dynp = match &p.dynamic_params { None => "-".to_string(), Some(d) => { let v: Vec<usize> = d.clone().into(); v.iter().map(|x| format!("{:x}", x)).collect::<Vec<_>>().join(",") } };
@@ -56,16 +64,15 @@ fn fmt_tcfg(c: &swiftness_commitment::table::config::Config) -> Vec<Felt> {
 pub const CFG_TOKENS: usize = 13;
 pub fn parse_cfg(a: &[&str]) -> swiftness_stark::config::StarkConfig {
     let one = |s: &str| { let r = rows(s); if r.len() != 1 || r[0].len() != 3 { panic!("HX-BAD-INPUT tcfg") } tcfg(&r[0]) };
-    swiftness_stark::config::StarkConfig {
-        traces: swiftness_air::trace::config::Config { original: one(a[5]), interaction: one(a[6]) },
-        composition: one(a[7]),
-        fri: swiftness_fri::config::Config {
-            log_input_size: felt(a[8]), n_layers: felt(a[9]), log_last_layer_degree_bound: felt(a[10]),
-            fri_step_sizes: felts(a[11]), inner_layers: rows(a[12]).iter().map(|r| tcfg(r)).collect() },
-        proof_of_work: swiftness_pow::config::Config { n_bits: u64h(a[4]) as u8 },
-        log_trace_domain_size: felt(a[0]), log_n_cosets: felt(a[1]), n_queries: felt(a[2]),
-        n_verifier_friendly_commitment_layers: felt(a[3]),
-    }
+    let mut c = swiftness_stark::fixtures::config::get();
+    c.traces.original = one(a[5]); c.traces.interaction = one(a[6]);
+    c.composition = one(a[7]);
+    c.fri.log_input_size = felt(a[8]); c.fri.n_layers = felt(a[9]); c.fri.log_last_layer_degree_bound = felt(a[10]);
+    c.fri.fri_step_sizes = felts(a[11]); c.fri.inner_layers = rows(a[12]).iter().map(|r| tcfg(r)).collect();
+    c.proof_of_work.n_bits = u64h(a[4]) as u8;
+    c.log_trace_domain_size = felt(a[0]); c.log_n_cosets = felt(a[1]); c.n_queries = felt(a[2]);
+    c.n_verifier_friendly_commitment_layers = felt(a[3]);
+    c
 }
 pub fn fmt_cfg(c: &swiftness_stark::config::StarkConfig) -> String {
     format!("{} {} {} {} {:x} {} {} {} {} {} {} {} {}", hx(&c.log_trace_domain_size), hx(&c.log_n_cosets), hx(&c.n_queries),
@@ -108,6 +115,14 @@ pub fn run(op: &str, a: &[&str]) -> Option<Out> {
         "pihash" => {
             let pi = parse_pi(&a[0..PI_TOKENS]);
             Out::Ok(hx(&pi.get_hash(felt(a[10]))))
+        }
+        // pihash_seq <PI x10> <PI x10> <nf>: get_hash of the first input, then the SAME object is given every field of the second input
+        // and hashed again: the answer must be the hash of the second input (the digest is a function of the value, not of the history)
+        "pihash_seq" => {
+            let mut pi = parse_pi(&a[0..PI_TOKENS]);
+            let _ = pi.get_hash(felt(a[2 * PI_TOKENS]));
+            assign_pi(&mut pi, parse_pi(&a[PI_TOKENS..2 * PI_TOKENS]));
+            Out::Ok(hx(&pi.get_hash(felt(a[2 * PI_TOKENS]))))
         }
         // starkcfg <sec> <nc1> <nc2> <CFG x13>
         "starkcfg" => r(parse_cfg(&a[3..3 + CFG_TOKENS]).validate(felt(a[0]), felt(a[1]), felt(a[2])), |_| String::new()),
